@@ -9,7 +9,8 @@ def git(*a, cwd="/repo"): return subprocess.run(["git", "-C", cwd] + list(a), ca
 git("worktree", "remove", "--force", WT); git("worktree", "add", "--detach", "-q", WT, "HEAD")
 head = git("rev-parse", "--short", "HEAD").stdout.strip()
 bad = []
-for d in sorted(glob.glob("seeded/*/")):
+DIR = sys.argv[1] if len(sys.argv) > 1 else "seeded"
+for d in sorted(glob.glob(DIR + "/*/")):
     s = os.path.basename(d.rstrip("/")); patch = os.path.abspath(d + "patch.diff")
     if git("apply", "--check", "--whitespace=nowarn", patch, cwd=WT).returncode == 0: continue
     r = git("apply", "--3way", "--whitespace=nowarn", patch, cwd=WT)
